@@ -1,10 +1,10 @@
 package main
 
 import (
-	"regexp"
 	"fmt"
 	"go/token"
 	"go/types"
+	"regexp"
 	"sort"
 	"strings"
 
